@@ -402,7 +402,7 @@ where
     Ok(())
 }
 
-fn run_c11_case(rng: &mut Rng, kind: Kind, ctor: Ctor, sink: SinkKind, n: usize, miri: bool, vobs: &mut ViewObs) -> Result<(usize, bool), Fail> {
+fn run_c11_case(rng: &mut Rng, kind: Kind, ctor: Ctor, sink: SinkKind, n: usize, miri: bool, vobs: &mut ViewObs) -> Result<(usize, bool, u64), Fail> {
     let mut tags = gen_tags(rng, n);
     if ctor == Ctor::FromSorted && rng.chance(3, 4) {
         tags.sort_unstable();
@@ -414,6 +414,20 @@ fn run_c11_case(rng: &mut Rng, kind: Kind, ctor: Ctor, sink: SinkKind, n: usize,
         let mut t = tags.clone();
         t.sort_unstable();
         t.windows(2).any(|w| w[0] == w[1])
+    };
+    // shape of the case: relative order / equality pattern of the first tags
+    // and which values are empty (what the layout's offsets and the stable
+    // sort depend on)
+    let shape = {
+        let mut h = 0x51u64;
+        for (i, t) in tags.iter().enumerate().take(10) {
+            let rank = tags.iter().filter(|u| *u < t).count() as u64;
+            let dup = tags.iter().take(i).any(|u| u == t) as u64;
+            let empty = values[i].is_empty() as u64;
+            let big = (values[i].len() > 64) as u64;
+            h = mix(&[h, rank, dup, empty, big]);
+        }
+        h
     };
     match kind {
         Kind::Bytes => {
@@ -502,7 +516,7 @@ fn run_c11_case(rng: &mut Rng, kind: Kind, ctor: Ctor, sink: SinkKind, n: usize,
             }
         }
     }
-    Ok((n, repeated))
+    Ok((n, repeated, shape))
 }
 
 /// A value that only *claims* a length (never encoded): probes the limits
@@ -615,7 +629,7 @@ pub fn run_c11(ctx: &mut Ctx) {
         match res {
             Err(p) => ctx.violate(&["C11"], &format!("panic:{}", panic_sig(&p)), format!("rough_tlv panicked: {}", p), c11_json(idx, "encode-view", detail)),
             Ok(Err(f)) => ctx.violate(&f.props, &f.sig, f.what, c11_json(idx, "encode-view", detail)),
-            Ok(Ok((n, repeated))) => {
+            Ok(Ok((n, repeated, shape))) => {
                 ctx.feature(&format!("tlv.c11.kind.{:?}", kind));
                 ctx.feature(&format!("tlv.c11.ctor.{:?}", ctor));
                 ctx.feature(&format!("tlv.c11.sink.{:?}", sink));
@@ -631,7 +645,7 @@ pub fn run_c11(ctx: &mut Ctx) {
                 if n >= 50 {
                     ctx.feature("tlv.c11.large_list");
                 }
-                ctx.signature(mix(&[kind as u64, ctor as u64, sink as u64, n.min(10) as u64, repeated as u64, vobs.accepted.min(3)]));
+                ctx.signature(mix(&[kind as u64, ctor as u64, sink as u64, n.min(10) as u64, repeated as u64, vobs.accepted.min(3), shape]));
                 ctx.sample(3, || c11_json(idx, "encode-view", detail.clone()));
             }
         }
